@@ -437,6 +437,26 @@ func vShorthandsVsLonghands() (int, []string) {
 			}
 		}
 	}
+	// css-grid-2 §7.8: the auto-flow forms of the `grid` shorthand: `auto-flow` before the slash flows in rows, after
+	// it in columns; `dense` goes with it; the track list on that side is the auto track size
+	for _, pair := range [][2]string{
+		{"grid: auto-flow / 100px", "grid-auto-flow: row; grid-template-columns: 100px"},
+		{"grid: auto-flow dense 50px / 100px", "grid-auto-flow: row dense; grid-auto-rows: 50px; grid-template-columns: 100px"},
+		{"grid: 100px / auto-flow 50px", "grid-auto-flow: column; grid-auto-columns: 50px; grid-template-rows: 100px"},
+		{"grid: 100px / auto-flow dense 50px", "grid-auto-flow: column dense; grid-auto-columns: 50px; grid-template-rows: 100px"},
+		{"GRID: 100PX / AUTO-FLOW DENSE", "grid-auto-flow: column dense; grid-template-rows: 100px"},
+	} {
+		n++
+		got, want := vDeclared(pair[0]), vDeclared(pair[1])
+		if len(want) < 2 {
+			fail("%q: %d longhands understood", pair[1], len(want))
+		}
+		for k, w := range want {
+			if g, ok := got[k]; !ok || !reflect.DeepEqual(g, w) {
+				fail("%q: %s is %v, the longhand gives %v", pair[0], k, g, w)
+			}
+		}
+	}
 	// spelling: keywords, units and property names are ASCII case-insensitive (CSS Syntax 3 §4, css-values §3.1):
 	// the upper-case spelling of a declaration assigns what the lower-case spelling assigns, and something
 	for _, text := range []string{
@@ -459,7 +479,7 @@ func vShorthandsVsLonghands() (int, []string) {
 	return n, fails
 }
 
-//@ bounded vShorthandsVsLonghands 8 shorthands x every subset and order of their components x 3 spellings, 192 one- to three-layer background shorthands, border-radius with 1-4 horizontal and 0-4 vertical radii and three four-sides shorthands with 1-4 values, against the equivalent longhand declarations; 9 flex shorthands, 9 list-style shorthands with `none` and 1 512 border-image shorthands (every width list of 1-3 values over a length, a percentage, auto and a number) against their longhands; 27 declarations in upper case against their lower-case spelling
+//@ bounded vShorthandsVsLonghands 8 shorthands x every subset and order of their components x 3 spellings, 192 one- to three-layer background shorthands, border-radius with 1-4 horizontal and 0-4 vertical radii and three four-sides shorthands with 1-4 values, against the equivalent longhand declarations; 9 flex shorthands, 9 list-style shorthands with `none`, 5 auto-flow forms of `grid` and 1 512 border-image shorthands (every width list of 1-3 values over a length, a percentage, auto and a number) against their longhands; 27 declarations in upper case against their lower-case spelling
 //@   props C08
 
 // border-radius: the index reads of the two radius lists are safe (each list holds exactly four values
